@@ -1,6 +1,7 @@
 """C02 - annotations reach exactly the ancestors; records stay direct (clauses: KIND, PAIR, DOM/SELECT early exit, PHASE record lists; WIT thorough)"""
 import re
 from engines import kind_elements, kind_of_callee, MutSummary, positive_edges, bool_polarity
+from engines import check_required_steps
 from engines import check_complete_iteration
 from prov import Prov, params_of, field_names
 from props import codec
@@ -184,6 +185,11 @@ def run(ck, prog, ctx):
         ck.ob("DOM", "link_%s_term/links" % stem, key == {2} and ida == {3}, "link_%s_term adds record `%s` to the term looked up by `%s`" % (stem, "/".join(lb.local_name(p) for p in ida), "/".join(lb.local_name(p) for p in key)), where=lb.where(at_.line))
 
     check_complete_iteration(ck, "DOM", prog, [B + "link_%s_term" % v[0] for v in KINDS.values()] + [B + ("add_genes_from_bytes" if k == "Gene" else "add_%s_from_bytes" % v[0]) for k, v in KINDS.items()], "the ancestors / the decoded records' terms")
+
+    for K, (stem, plural, rec) in sorted(KINDS.items()):
+        db_ = prog.body(B + ("add_genes_from_bytes" if K == "Gene" else "add_%s_from_bytes" % stem))
+        if db_ is not None:
+            check_required_steps(ck, "PAIR", prog, db_, [("propagate every term of a decoded record", lambda t: bool(re.search(r"::link_\w+_term$", t.callee.res or ""))), ("store every decoded record", lambda t: t.callee.method == "insert" and "HashMap" in (t.callee.def_args or ""))])
 
     # ------------------------------------------------------------------ PHASE: writers of the records' `hpos`
     rec_rx = r"annotations::(gene::Gene|omim_disease::OmimDisease|orpha_disease::OrphaDisease)$"
